@@ -55,4 +55,5 @@ def main():
             emit(r)
 
 
-main()
+if __name__ == "__main__":
+    main()
